@@ -15,6 +15,7 @@ import GoImap.Drive.C03
 import GoImap.Drive.C10
 import GoImap.Drive.C04
 import GoImap.Drive.C11
+import GoImap.Drive.C06
 open GoImap
 
 /-- one case per input line, tab-separated; the first field names the property -/
@@ -37,6 +38,7 @@ def dispatch (line : String) : String :=
   | "C10" :: rest => DriveC10.handle rest
   | "C04" :: rest => DriveC04.handle rest
   | "C11" :: rest => DriveC11.handle rest
+  | "C06" :: rest => DriveC06.handle rest
   | _ => "?\t0\tfail:unknown-property\t-"
 
 partial def loop (hin hout : IO.FS.Stream) : IO Unit := do
